@@ -397,7 +397,7 @@ Proof.
   pose proof (pre_matches_hdr prog) as HP.
   destruct Hwf as (PosS & PosA & PosO & FitS & FitO & _ & _ & _ & Hst).
   set (H := hdr_of prog) in *.
-  unfold parse_lines. rewrite (phase1 H prog lss HF pre0). cbn [bind fst snd].
+  unfold parse_lines, parse_lines_from. rewrite (phase1 H prog lss HF pre0). cbn [bind fst snd].
   destruct HP as (PS & PA & PO & PD & MS & MA & MO). rewrite PS, PA, PO, PD.
   assert (C1 : ((N.of_nat (hS H) =? 0)%N || (N.of_nat (hA H) =? 0)%N || (pomdp && (N.of_nat (hO H) =? 0)%N)) = false).
   { rewrite (N_of_nat_pos _ PosS), (N_of_nat_pos _ PosA). cbn [orb].
